@@ -897,9 +897,16 @@ func cmdTrace(prop, opsPath, outPath string, pairsPerType int) {
 			}
 			pairs = append(pairs, src[:n]...)
 		}
-		take(spec, pairsPerType*35/100)
-		take(cross, pairsPerType*35/100)
-		for target := len(must) + pairsPerType; len(pairs) < target; {
+		budget := pairsPerType
+		if util.Tier() == "thorough" {
+			take(spec, len(spec)) // every spec pair
+			take(cross, pairsPerType)
+			budget = len(pairs) - len(must) + pairsPerType/2
+		} else {
+			take(spec, pairsPerType*35/100)
+			take(cross, pairsPerType*35/100)
+		}
+		for target := len(must) + budget; len(pairs) < target; {
 			var a, b *big.Int
 			switch rng.Intn(4) {
 			case 0:
